@@ -70,6 +70,8 @@ def run_tlc(module_path, cfg=None, workers=1, env=None, timeout=600, extra=(), h
     d = os.path.dirname(module_path)
     mod = os.path.basename(module_path)
     cfg = cfg or (os.path.splitext(mod)[0] + ".cfg")
+    if os.path.isabs(cfg):
+        pass
     own = metadir is None
     if own:
         metadir = tempfile.mkdtemp(prefix="tlcmeta_")
